@@ -73,6 +73,10 @@ def verify_function(task):
                         g = raise_cond(c.raises[rec.exc])
                         res.obls.append(Obl(f"{qual}:raises[{rec.exc}@{rec.line}#{i}]", "raises", ex.ax + rst.pc, g, qual, rec.line,
                                             c.raises[rec.exc]))
+                    elif rec.exc in c.raises_only_if:
+                        g = raise_cond(c.raises_only_if[rec.exc])
+                        res.obls.append(Obl(f"{qual}:raises-only-if[{rec.exc}@{rec.line}#{i}]", "raises", ex.ax + rst.pc, g, qual, rec.line,
+                                            c.raises_only_if[rec.exc]))
                     else:
                         res.obls.append(Obl(f"{qual}:no-unexpected-raise[{rec.exc}@{rec.line}#{i}]", "raises", ex.ax + rst.pc,
                                             z3.BoolVal(False), qual, rec.line, "path must be infeasible under the precondition"))
